@@ -98,8 +98,8 @@ theorem writeR_dir (s : State) : (writeR s).1.dir = s.dir := by
 theorem construct_dir (s : State) : (construct fixed s).1.dir = true := by
   unfold construct
   cases hdisk : s.disk with
-  | some d => simp [hdisk, fixed]
-  | none => simp only [hdisk]; rw [writeR_dir]; simp [fixed]
+  | some d => simp [fixed]
+  | none => rw [writeR_dir]; simp [fixed]
 
 theorem switch_dir (t : Two) (hd : t.cur.dir = true) : (switch fixed t).cur.dir = true := by
   unfold switch
